@@ -111,3 +111,18 @@ def model_int(model, name, default=None):
         return int(model[name])
     except Exception:
         return default
+
+
+def congruence_lemmas(tag, R, P, n, D, ctx_hyps):
+    """R - P == D*n  =>  (R mod n) == (P mod n), packaged for the solver:
+       (i)   the polynomial identity R - P == D*n under the current definitions (explicit witness D from the sidecar);
+       (ii)  uniqueness of the remainder for OPAQUE R, P, D (products hidden): proved once per use, instant;
+       returns (obligations [(name, hyps, goal)], conclusion) where conclusion is  r_R == r_P  over the memoised
+       quotient/remainder witnesses of R and P - to be used as a hypothesis of the main goal."""
+    qR, rR = core._divmod_global(z3.simplify(R), n)
+    qP, rP = core._divmod_global(z3.simplify(P), n)
+    Rv, Pv, Dv = z3.Int("opaque!R" + tag), z3.Int("opaque!P" + tag), z3.Int("opaque!D" + tag)
+    obs = [("lemma:%s:identity R-P==D*n" % tag, list(ctx_hyps), R - P == D * n),
+           ("lemma:%s:remainder-unique(opaque)" % tag,
+            [n >= 1, Rv == qR * n + rR, rR >= 0, rR < n, Pv == qP * n + rP, rP >= 0, rP < n, Rv - Pv == Dv * n], rR == rP)]
+    return obs, rR == rP
